@@ -24,7 +24,7 @@ fn ecode(e: &Error<E>) -> i32 {
 fn unit_exps(u: Unit) -> (i8, i8) {
     for m in -3..=3i8 {
         for s in -4..=4i8 {
-            if u == Unit::new(m, s) {
+            if ueq(u, Unit::new(m, s)) {
                 return (m, s);
             }
         }
